@@ -537,7 +537,18 @@ class C02(Property):
       n_real = len(got[1]) if got[0] == "ok" else 0
       events.append("%s(%d) on e%d -> real %s %d items, model %d items"
                     % (op, k, e, got[0], n_real, mk))
-      if got[0] == "stall":
+      if got[0] == "stall" and self.frozen is not None:
+        # The stall guard fired AFTER an end had already travelled through
+        # the real pipeline: Python's own iterator objects are not sticky
+        # (an exhausted itertools.compress / zip / map asked again pulls its
+        # first operand again), so a stage that polls its exhausted input
+        # once more (resample, zcross, tee branches) can make an upstream
+        # selector search an endless source for ever.  Reads after the first
+        # end are not judged (soundness rule 1); the counts frozen at that
+        # first end are compared below and the schedule stops.
+        res.counters["stall-after-first-end-not-judged"] += 1
+        events[-1] += " (after the first end: not judged)"
+      elif got[0] == "stall":
         raise _Mismatch("over-read:" + self._culprit(wl),
                         "%s(%d) on endpoint %d of %s: %s"
                         % (op, k, e, self.describe(wl), got[1]))
